@@ -19,14 +19,14 @@ def claim(id, cat, text, tech, ref):
 def na(id, reason):
     P[id] = (False, reason)
 
-claim("C01", "other Round 9: one committed transaction per request (R19), sub-block journal objects are never logged through their containing block (R20).",
-      "Decides structural necessary conditions of crash atomicity/durability on every path of the current source: success replies only after a synchronous commit whose result steers the status (R1), a single commit funnel that writes bitmap bits before the durability point (R2), complete allocation bookkeeping with the right polarity (R3), no raw disk access behind the journal after recovery (R4), format order (R5), self-contained shrink transactions (R6), no operation through a finished transaction, the WRITE stability dispatch and COMMIT flush (R8, R9 = C07.U2/U1), disk decorators delegating every operation incl. Barrier (R10). It does not decide that the recovered state equals a prefix of the history - that needs the disk trace and the journal's own correctness. Later clauses: a shrink transaction is kept within the log counting the bitmap blocks of the commit (R13), no short write and no failed directory update is taken for done (R14, R16), a block number that can be 0 never becomes a block address (R11, R17), a refused commit is reported (R18).",
+claim("C01", "other",
+      "Decides structural necessary conditions of crash atomicity/durability on every path of the current source: success replies only after a synchronous commit whose result steers the status (R1), a single commit funnel that writes bitmap bits before the durability point (R2), complete allocation bookkeeping with the right polarity (R3), no raw disk access behind the journal after recovery (R4), format order (R5), self-contained shrink transactions (R6), no operation through a finished transaction, the WRITE stability dispatch and COMMIT flush (R8, R9 = C07.U2/U1), disk decorators delegating every operation incl. Barrier (R10). It does not decide that the recovered state equals a prefix of the history - that needs the disk trace and the journal's own correctness. Later clauses: a shrink transaction is kept within the log counting the bitmap blocks of the commit (R13), no short write and no failed directory update is taken for done (R14, R16), a block number that can be 0 never becomes a block address (R11, R17), a refused commit is reported (R18). Round 9: one committed transaction per request (R19), sub-block journal objects are never logged through their containing block (R20).",
       "must-pass-through / who-may-call / typestate over go/ssa + VTA call graph", "DESIGN.md section 3 C01")
-claim("C03", "other Round 9: revalidation after a relock whatever the cached objects look like (T14 = G4), one lock per file in SimpleNFS (T15), journal objects written at the granularity of their lock (T16).",
-      "Decides the strict two-phase-locking discipline: cached inodes are used only inside their lock's critical section (T1), locks are released only after the commit point and only at frozen early-release sites (T2), abort-and-relock sites revalidate generation and name (T3), the inode-cache slot is looked up only under the inode lock (T4), an aborting transaction drops the cached inodes it modified before it unlocks (T5), NOENT only where a lookup found nothing (T6), a re-locked inode is read from the committed state, not from the transaction's own buffers (T7). Does not decide the existence of a linearization for a history. Also: one committed transaction per request (T10), existence checked under the lock in force and deciding the allocation (T12), RENAME relocks by directory identity with a completely filled list (T13).",
+claim("C03", "other",
+      "Decides the strict two-phase-locking discipline: cached inodes are used only inside their lock's critical section (T1), locks are released only after the commit point and only at frozen early-release sites (T2), abort-and-relock sites revalidate generation and name (T3), the inode-cache slot is looked up only under the inode lock (T4), an aborting transaction drops the cached inodes it modified before it unlocks (T5), NOENT only where a lookup found nothing (T6), a re-locked inode is read from the committed state, not from the transaction's own buffers (T7). Does not decide the existence of a linearization for a history. Also: one committed transaction per request (T10), existence checked under the lock in force and deciding the allocation (T12), RENAME relocks by directory identity with a completely filled list (T13). Round 9: revalidation after a relock whatever the cached objects look like (T14 = G4), one lock per file in SimpleNFS (T15), journal objects written at the granularity of their lock (T16).",
       "transaction typestate (ESP-style) + must-precede over go/ssa", "DESIGN.md section 3 C03")
-claim("C04", "other Round 9: a directory update reported done was written (S19).",
-      "Decides co-update disciplines that keep the on-disk structure well-formed: pointer/bitmap/inode co-update through the commit funnel (S1), name and link co-update (S2), link-count balance across inverse operations (S3), emptiness check before directory unlink (S4), range assertion on pointer-producing paths (S5), only regular files have client-settable content/size (S7), cache slots only under the lock (S8). Not the invariant on any concrete state. Also: ok results of directory updates used (S15), null block numbers never addressed (S16), a create goes ahead only when the lookup found nothing (S17), RENAME of a name onto itself changes nothing (S18).",
+claim("C04", "other",
+      "Decides co-update disciplines that keep the on-disk structure well-formed: pointer/bitmap/inode co-update through the commit funnel (S1), name and link co-update (S2), link-count balance across inverse operations (S3), emptiness check before directory unlink (S4), range assertion on pointer-producing paths (S5), only regular files have client-settable content/size (S7), cache slots only under the lock (S8). Not the invariant on any concrete state. Also: ok results of directory updates used (S15), null block numbers never addressed (S16), a create goes ahead only when the lookup found nothing (S17), RENAME of a name onto itself changes nothing (S18). Round 9: a directory update reported done was written (S19).",
       "pairing / who-writes / guard dominance over go/ssa", "DESIGN.md section 3 C04")
 claim("C05", "other",
       "Decides structural conditions of full reclamation: truncate-before-free and shrinker start (F1), allocator epilogues exactly at commit/abort (F2), no double return (F3), no resize of a half-freed inode (F4), link-count balance (F5), shrinker accounting (F6), index blocks released with their first slot and Shrink results handed on (F8, F1), refused commits undone (F9), no index block linked without a data block (F10), no stale inode copy after an early release (F12). Not the arithmetic of Shrink/indshrink. Also: every shrink request starts a shrinker that shrinks its inode (F6), shrink transactions fit in the log (F18), bmap reports what it linked (F19), READ does not map blocks behind the end of the file (F20).",
@@ -58,8 +58,8 @@ claim("C13", "other",
 claim("C14", "other",
       "Static lock-discipline check for the shared state of the server packages: cached inodes only under their lock (D1), mutex-guarded fields only under their mutex (D2), statistics only through sync/atomic (D3), nothing lock-protected escapes into a goroutine (D4), configuration written before serving (D5), shared-state inventory with one discipline per struct type (D6), cache slots reached only under the inode lock (D7). Not a whole-program race analysis; dependencies trusted.",
       "lockset / guarded-by / who-writes over go/ssa", "DESIGN.md section 3 C14")
-claim("C15", "other Round 9: an allocation is refused only when the allocator refuses (K9).",
-      "Decides the parts of the layout that hold by construction for every disk size: cumulative region chain (K1), constant agreement (K2), format and assertion use the same range with the same strictness (K3), bitmap covers the disk by the x/k+1 form (K4), and the two bit-marking loops of mkfs mark exactly [0,n) and [m mod NBITBLOCK, NBITBLOCK) of the right blocks (K6, decided by the form of the loops; a marking of another form is reported as undecided). That the whole data region can be filled is not decided. Also: bitmap blocks are read and put together in order (K5), link counts have fixed writers (K8).",
+claim("C15", "other",
+      "Decides the parts of the layout that hold by construction for every disk size: cumulative region chain (K1), constant agreement (K2), format and assertion use the same range with the same strictness (K3), bitmap covers the disk by the x/k+1 form (K4), and the two bit-marking loops of mkfs mark exactly [0,n) and [m mod NBITBLOCK, NBITBLOCK) of the right blocks (K6, decided by the form of the loops; a marking of another form is reported as undecided). That the whole data region can be filled is not decided. Also: bitmap blocks are read and put together in order (K5), link counts have fixed writers (K8). Round 9: an allocation is refused only when the allocator refuses (K9).",
       "constant evaluation + sibling agreement over AST/SSA", "DESIGN.md section 3 C15")
 claim("C16", "translation_validation",
       "Validates the generated XDR codec and dispatch tables present in /repo against the RFC 1813 description (prot.x shipped in the pinned go-rpcgen module): wire grammar of every Xdr method extracted in encode and decode mode and compared node by node with the RFC's; constants by value; one registration per RFC procedure with matching numbers, argument/result types and handler; args.Error() checked before every handler and returned when set. The xdr primitives are trusted.",
@@ -67,11 +67,11 @@ claim("C16", "translation_validation",
 claim("C17", "other",
       "Decides the validate/lock/one-transaction/commit(true)/unlock skeleton of each SimpleNFS handler, the bounds in its data path, layout constants and advertised limits, sizes grow only through the data path and the per-start initialisation keeps what the inodes hold (S4). The functional specification is not decided. Also: the size limits of SETATTR, WRITE and FSINFO agree (S7), no reply says OK by default and a refusal decided is a refusal returned (S8).",
       "pairing / must-precede / guard dominance over go/ssa", "DESIGN.md section 3 C17")
-claim("C18", "other Round 9: Get is a reader - nothing reachable from it dirties or overwrites a journal object (Q3).",
-      "Decides that MultiPut is one journal operation committed once with wait=true whose result is returned, that every pair is written on every iteration and nothing is read to decide what to write, that Get reads through the journal and returns a copy, and that the key-range predicates of MultiPut and Get accept the same set. The range predicates refuse: the journal access lies on the accepting side of both comparisons.",
+claim("C18", "other",
+      "Decides that MultiPut is one journal operation committed once with wait=true whose result is returned, that every pair is written on every iteration and nothing is read to decide what to write, that Get reads through the journal and returns a copy, and that the key-range predicates of MultiPut and Get accept the same set. The range predicates refuse: the journal access lies on the accepting side of both comparisons. Round 9: Get is a reader - nothing reachable from it dirties or overwrites a journal object (Q3).",
       "must-precede + sibling bounds agreement over go/ssa", "DESIGN.md section 3 C18")
-claim("C19", "other Round 9: allocation refused only by the allocator (M11), the directory-entry codec returns what it read for names of every admitted length (M12).",
-      "Decides that each advertised limit equals the largest value its enforcement predicate accepts (name length, transfer size) and that every store to the file size is dominated by a comparison with the advertised maximum. Behaviour at the limit end to end is not decided. Also: request-sized transactions (WRITE, SYMLINK, READ) are bounded by a constant <= wtmax (M6), the refusing side of a length test answers false (M1), and what the server announces gets past the decoder: no codec bound tighter than RFC 1813 (M10).",
+claim("C19", "other",
+      "Decides that each advertised limit equals the largest value its enforcement predicate accepts (name length, transfer size) and that every store to the file size is dominated by a comparison with the advertised maximum. Behaviour at the limit end to end is not decided. Also: request-sized transactions (WRITE, SYMLINK, READ) are bounded by a constant <= wtmax (M6), the refusing side of a length test answers false (M1), and what the server announces gets past the decoder: no codec bound tighter than RFC 1813 (M10). Round 9: allocation refused only by the allocator (M11), the directory-entry codec returns what it read for names of every admitted length (M12).",
       "constant evaluation + normalised comparison agreement + guard dominance", "DESIGN.md section 3 C19")
 claim("C02", "other",
       "Does NOT decide that replies equal those of a reference file system (a statement about run-time values). Decides structural necessary conditions of it on every path of the current source: (B1) the block-by-block copy loops of Inode.Read and Inode.Write move their cursors together - block index, file position, bytes left / done and source position advance by one per-round count that is min(bytes to the end of the block, bytes left), the loop goes on while bytes are left, the block touched is the one bmap returned for the round and is indexed at position%BlockSize + i, the read result is the in-order append of the rounds; (B2) reply fields come from their source (READ data/count/eof and READLINK target from Inode.Read, WRITE count from Inode.Write; handle and attributes of one reply from one inode object); (B3) the size a write records is start + bytes written, stored only where larger, Resize records the size asked for; and the clauses shared with C04/C08/C09/C12/C13/C19 that state when a request must fail and what a name resolves to (unsupported procedures, EXIST, NOTEMPTY, self-rename, complete name cache, NOENT only from a lookup, READ clamp, stale handles, name and size limits, unlink after name removal, the listing built is the listing returned). Not decided: which bytes a history leaves in a file, error codes among several applicable refusals, eof, timestamps.",
